@@ -79,6 +79,14 @@ func (h *NFSProcedureHandler) handleCreate(body io.Reader, reply *RPCReply, auth
 		return nfsErrorWithWcc(reply, NFSERR_STALE), nil
 	}
 
+	// The handle must name a directory (a symbolic link to one is not followed)
+	node.mu.RLock()
+	isDir := node.attrs != nil && node.attrs.Mode&os.ModeDir != 0
+	node.mu.RUnlock()
+	if !isDir {
+		return nfsErrorWithWcc(reply, NFSERR_NOTDIR), nil
+	}
+
 	// R23: Return NFS error instead of nil,err
 	dirPreAttrs, err := h.server.handler.GetAttr(node)
 	if err != nil {
@@ -203,6 +211,14 @@ func (h *NFSProcedureHandler) handleMkdir(body io.Reader, reply *RPCReply, authC
 	node, ok := h.lookupNode(handleVal)
 	if !ok {
 		return nfsErrorWithWcc(reply, NFSERR_STALE), nil
+	}
+
+	// The handle must name a directory (a symbolic link to one is not followed)
+	node.mu.RLock()
+	isDir := node.attrs != nil && node.attrs.Mode&os.ModeDir != 0
+	node.mu.RUnlock()
+	if !isDir {
+		return nfsErrorWithWcc(reply, NFSERR_NOTDIR), nil
 	}
 
 	// R23: Return NFS error instead of nil,err
@@ -334,6 +350,14 @@ func (h *NFSProcedureHandler) handleSymlink(body io.Reader, reply *RPCReply, aut
 	node, ok := h.lookupNode(handleVal)
 	if !ok {
 		return nfsErrorWithWcc(reply, NFSERR_STALE), nil
+	}
+
+	// The handle must name a directory (a symbolic link to one is not followed)
+	node.mu.RLock()
+	isDir := node.attrs != nil && node.attrs.Mode&os.ModeDir != 0
+	node.mu.RUnlock()
+	if !isDir {
+		return nfsErrorWithWcc(reply, NFSERR_NOTDIR), nil
 	}
 
 	// R23: Return NFS error instead of nil,err
